@@ -33,6 +33,9 @@ type world struct {
 	lastK map[string]*big.Int
 	// witness cases run inputs the theorems exclude by hypothesis; the oracle is then replaced by an expectation
 	noOracle bool
+	// honest: every batch in this case comes from real state machines (pipe-*); provider tables must then never
+	// be erased while the pool holds funds
+	honest bool
 }
 
 func (w *world) close() {
@@ -93,6 +96,9 @@ func (w *world) oracle(env string, before, after *Snapshot, op string, minted *b
 		ps := new(big.Int)
 		for _, p := range lp.Points {
 			ps.Add(ps, new(big.Int).SetUint64(p.Points))
+		}
+		if bp := before.pool(c + liquidityAdd); w.honest && bp.TotalPoolPoints != 0 && lp.TotalPoolPoints == 0 && lp.Amount != 0 {
+			w.o.Fail("C20:provider-points-erased-pool-funded", fmt.Sprintf("env %s chain %d after %q: %d providers with %d points before, none after, pool still holds %d", env, c, op, len(bp.Points), bp.TotalPoolPoints, lp.Amount), w.replay())
 		}
 		if ps.Cmp(new(big.Int).SetUint64(lp.TotalPoolPoints)) != 0 {
 			w.o.Fail("C20:points-sum-ne-total", fmt.Sprintf("env %s chain %d after %q: Σ points %s, total %d", env, c, op, ps, lp.TotalPoolPoints), w.replay())
@@ -469,6 +475,30 @@ func witnessCase(o *drv.Out) {
 	w.close()
 }
 
+// witnessRootFallback: HandleDexBatch executes the liveness fallback for ANY batch that carries the flag, also on
+// the root chain (isNested = false), where CertificateResult.CheckBasic forces PoolPoints == nil: the root chain's
+// provider table is replaced by the empty table while the pool keeps its balance (theorem
+// root_fallback_erases_provider_table). Needs a certificate signed by the nested chain's committee with
+// DexBatch.LivenessFallback = true, which the honest controller never produces.
+func witnessRootFallback(o *drv.Out) {
+	w := newWorld(o, "witness-root-fallback")
+	w.noOracle = true
+	w.chains = []uint64{2}
+	a := w.addrs[0]
+	w.initEnv("R", 1, 1, 0, 2)
+	w.fund("R", a, 1000)
+	w.setpool("R", 2+liquidityAdd, 1000, 20, []*lib.PoolPoints{{Address: dead, Points: 10}, {Address: a, Points: 10}})
+	st, _, after := w.dexbatch("R", 2, false, &lib.DexBatch{Committee: 1, PoolSize: 500, LivenessFallback: true})
+	lp := after.pool(2 + liquidityAdd)
+	st2 := w.withdraw("R", 2, a, 100, w.freshID())
+	if st == "ok" && lp.Amount == 1000 && len(lp.Points) == 0 && lp.TotalPoolPoints == 0 && st2 == "err:PointHolderNotFound" {
+		o.Count("witness:root-fallback-erases-provider-table:reproduced-on-real-code")
+	} else {
+		o.Count(fmt.Sprintf("witness:root-fallback:not-reproduced:%s:%d:%d:%s", st, lp.Amount, len(lp.Points), st2))
+	}
+	w.close()
+}
+
 // Run is the entry point of the C20 driver.
 func Run(o *drv.Out) {
 	nSell, lenSell, nArith := 40, 60, 200_000
@@ -480,6 +510,7 @@ func Run(o *drv.Out) {
 	arith(o, nArith)
 	txIDProbe(o)
 	witnessCase(o)
+	witnessRootFallback(o)
 	for i := 0; i < nSell; i++ {
 		w := newWorld(o, fmt.Sprintf("sell-%d", i))
 		w.sellOrderCase(lenSell)
@@ -490,6 +521,7 @@ func Run(o *drv.Out) {
 	}
 	for i := 0; i < nPipe; i++ {
 		w := newWorld(o, fmt.Sprintf("pipe-%d", i))
+		w.honest = true
 		w.pipeCase(lenPipe)
 		if i < 2 {
 			o.Sample(strings.Join(w.hist[len(w.hist)-3:], " ; "))
